@@ -107,7 +107,7 @@ class StepResult(object):
 
 
 DEFAULT_CFG = dict(storage="memory", usage=False, blur=None, allow_list=True, motd=None,
-                   advertise=None, signal_error=None, t0=100000.0)
+                   advertise=None, signal_error=None, t0=100000.0, commit_snaps=False)
 
 
 class World(object):
@@ -248,6 +248,8 @@ class World(object):
                 cp = os.path.join(self.dir, "relay.sqlite")
                 self.channel_db = [c for p, c in self.dbs if p == cp][-1]
             self.channel_db._label = "chan"
+            if self.cfg.get("commit_snaps") and self.db_hook is None:
+                self.db_hook = self._commit_snap_hook
             if self.usage_db is not None:
                 self.usage_db._label = "usage"
         finally:
@@ -266,6 +268,26 @@ class World(object):
             return f(*a)
         finally:
             tlog.removeObserver(obs)
+
+    def _commit_snap_hook(self, conn, kind, arg):
+        """commit-granularity observation: the keys of `mailboxes` / `nameplates` after every commit of the
+        channel database inside a step (an incarnation that lives and dies inside one command is still seen)"""
+        if kind != "post-commit" or conn is not self.channel_db or self._cur is None:
+            return
+        self._cur.extra.setdefault("commit_snaps", []).append(self.key_snapshot())
+
+    def key_snapshot(self):
+        q = self.quiet
+        self.quiet = True
+        try:
+            cur = self.channel_db.cursor()
+            cur.row_factory = None
+            mb = sorted((a, i) for a, i in cur.execute("SELECT app_id, id FROM mailboxes").fetchall())
+            np = sorted((a, n, i) for a, n, i in cur.execute("SELECT app_id, name, id FROM nameplates").fetchall())
+            cur.close()
+        finally:
+            self.quiet = q
+        return {"mb": mb, "np": np}
 
     # ---- frames
     def _emit(self, conn, frame, payload):
@@ -365,6 +387,8 @@ class World(object):
 
     def _begin(self, ev, kind, snap):
         r = StepResult(ev, kind, self.now())
+        if self.cfg.get("commit_snaps"):
+            r.extra["keys_before"] = self.key_snapshot()
         if snap:
             r.before = self.channel_rows()
             if self.usage_db is not None:
@@ -379,6 +403,8 @@ class World(object):
         r.commits = self.n_commits - self._c0
         self._rows_cache = None
         self._urows_cache = None
+        if self.cfg.get("commit_snaps"):
+            r.extra["keys_after"] = self.key_snapshot()
         if snap:
             r.after = self.channel_rows()
             if self.usage_db is not None:
